@@ -18,7 +18,8 @@ import (
 // smallest, and the random pause before a dial attempt is zero. Which of several known addresses a node dials next
 // decides which connections exist, and with them every packet of the run; with the real discovery two executions of
 // one plan differ in that from the first moment a node knows more addresses than it is asked to dial.
-// VERIF_SRV_REALDISC=1 runs the real network.NewDefaultDiscovery instead (it works inside the bubble).
+// VERIF_SRV_REALDISC=1 runs the real network.NewDefaultDiscovery instead (it works inside the bubble; its choices and
+// pauses come from the runtime's random source, so two executions of one plan differ).
 type detDiscovery struct {
 	seeds            map[string]string
 	transport        network.Transporter
